@@ -179,10 +179,11 @@ func mtaCase(kind string, dir int, a, b *big.Int, seed int64) (out []finding) {
 		ab := new(big.Int).Mul(a, b)
 		sum := new(big.Int).Add(alphaRef, betaB)
 		if sum.Cmp(ab) != 0 {
-			add("integer-sum-mismatch", fmt.Sprintf("alpha=%s beta=%s alpha+beta=%s but a*b=%s (difference %s)", short(alphaRef), short(betaB), short(sum), short(ab), short(new(big.Int).Sub(sum, ab))))
-		}
-		if new(big.Int).Mod(sum, q).Cmp(new(big.Int).Mod(ab, q)) != 0 {
-			add("mod-q-mismatch", fmt.Sprintf("(alpha+beta) mod q=%s, a*b mod q=%s", short(new(big.Int).Mod(sum, q)), short(new(big.Int).Mod(ab, q))))
+			modq := "also differs mod q"
+			if new(big.Int).Mod(sum, q).Cmp(new(big.Int).Mod(ab, q)) == 0 {
+				modq = "congruent mod q only"
+			}
+			add("integer-sum-mismatch", fmt.Sprintf("alpha=%s beta=%s alpha+beta=%s but a*b=%s (difference %s; %s)", short(alphaRef), short(betaB), short(sum), short(ab), short(new(big.Int).Sub(sum, ab)), modq))
 		}
 		if fDec := snd.ref.Dec(ctBig(F)); fDec.Cmp(neg(betaB)) != 0 {
 			add("f-mismatch", fmt.Sprintf("F decrypts to %s under the sender's key, expected -beta=%s", short(fDec), short(neg(betaB))))
